@@ -72,12 +72,19 @@ CONSTS = [
     # C18
     ("MAX_INLINE_KEY_LENGTH", "src/peer_id.rs", const("MAX_INLINE_KEY_LENGTH")),
     ("MULTIHASH_IDENTITY_CODE", "src/peer_id.rs", const("MULTIHASH_IDENTITY_CODE")),
+    # C18: the KeyType enum of keys.proto (the model's key-admission table is stated over these numbers)
+    ("C18_KEY_TYPE_RSA", "src/schema/keys.proto", r"enum\s+KeyType\s*\{[^}]*\bRSA\s*=\s*(\d+)\s*;"),
+    ("C18_KEY_TYPE_ED25519", "src/schema/keys.proto", r"enum\s+KeyType\s*\{[^}]*\bEd25519\s*=\s*(\d+)\s*;"),
+    ("C18_KEY_TYPE_SECP256K1", "src/schema/keys.proto", r"enum\s+KeyType\s*\{[^}]*\bSecp256k1\s*=\s*(\d+)\s*;"),
+    ("C18_KEY_TYPE_ECDSA", "src/schema/keys.proto", r"enum\s+KeyType\s*\{[^}]*\bECDSA\s*=\s*(\d+)\s*;"),
     # C19
     ("C19_KAD_MAX_ADDRESSES", KAD + "types.rs", const("MAX_ADDRESSES")),
     ("C19_KAD_DEFAULT_MAX_MESSAGE_SIZE", KAD + "config.rs", const("DEFAULT_MAX_MESSAGE_SIZE")),
     ("C19_IDENTIFY_PAYLOAD_SIZE", "src/protocol/libp2p/identify.rs", const("IDENTIFY_PAYLOAD_SIZE")),
     ("C19_BITSWAP_MAX_MESSAGE_SIZE", "src/protocol/libp2p/bitswap/config.rs", const("MAX_MESSAGE_SIZE")),
     ("C19_WEBRTC_MAX_FRAME_SIZE", "src/transport/webrtc/util.rs", const("MAX_FRAME_SIZE")),
+    ("C19_MDNS_BUFFER", "src/protocol/mdns.rs", r"receive_buffer:\s*vec!\[0u8;\s*([^\]]+)\]"),
+    ("C19_PING_PAYLOAD_SIZE", "src/protocol/libp2p/ping/config.rs", const("PING_PAYLOAD_SIZE")),
     ("PEER_ID_MULTIHASH_SIZE", "src/peer_id.rs", r"type\s+Multihash\s*=\s*multihash::Multihash<\s*(\d+)\s*>\s*;"),
     # C04
     ("BACKPRESSURE_BOUNDARY", "src/substream/mod.rs", const("BACKPRESSURE_BOUNDARY")),
@@ -86,6 +93,8 @@ CONSTS = [
     ("SUBSTREAM_READ_BUFFER_INIT_OTHER", "src/substream/mod.rs",
      r"std::cmp::max\(payload_size,\s*\d+\),\s*_\s*=>\s*(\d+),"),
     ("SUBSTREAM_SIZE_VEC_LEN", "src/substream/mod.rs", r"size_vec:\s*BytesMut::zeroed\((\d+)\)"),
+    ("YAMUX_DEFAULT_CREDIT", "src/yamux/mod.rs", const("DEFAULT_CREDIT")),
+    ("WEBRTC_MAX_INFLIGHT_MESSAGES", "src/transport/webrtc/substream.rs", const("MAX_INFLIGHT_MESSAGES")),
     # C10 (scores are i32; the two negative ones are read as magnitudes: `-100i32` -> 100, `i32::MIN` -> 2^31)
     ("MAX_ADDRESSES", ADDR, const("MAX_ADDRESSES")),
     ("SCORE_CONNECTION_ESTABLISHED", ADDR, const("CONNECTION_ESTABLISHED")),
@@ -183,6 +192,11 @@ def main():
     counts, miss = gen_c18_sites.generate(REPO)
     vals.update(counts)      # PEER_ID_SITES
     missing += list(miss)
+    # C19: every decode / buffer / codec site -> coq/gen/DecodeSites.v (sibling script)
+    import gen_c19_sites
+    counts, miss = gen_c19_sites.generate(REPO)
+    vals.update(counts)      # C19_DECODE_SITES, C19_CODEC_SITES
+    missing += list(miss)
     # C17: shape of the MemoryStore, its configuration and its callers -> coq/gen/C17Tables.v (sibling script)
     import gen_c17_tables
     counts, miss = gen_c17_tables.generate(REPO)
@@ -201,6 +215,10 @@ def main():
     import gen_c15_dispatch
     counts, miss = gen_c15_dispatch.generate(REPO)
     vals.update(counts)      # C15_QUERY_TYPES, C15_MESSAGE_KINDS, C15_QUERY_ACTIONS
+    # C04: error-kind table and mapping flags -> coq/gen/C04Tables.v (sibling script)
+    import gen_c04_tables
+    counts, miss = gen_c04_tables.generate(REPO)
+    vals.update(counts)      # SUBSTREAM_ERRORKINDS_MASK, EK_*, ...
     missing += list(miss)
     str_names = []
     for name, path, rx in STR_CONSTS:
